@@ -8,6 +8,7 @@ import (
 	"path/filepath"
 	"slices"
 	"strings"
+	"sync/atomic"
 	"syscall"
 	"time"
 
@@ -84,6 +85,12 @@ func (e *Executor) watchTasks(calls ...*Call) error {
 				ctx, cancel = context.WithCancel(context.Background())
 
 				e.Compiler.ResetCache()
+
+				// The call counters bound the calls of one round of runs: a watch
+				// session starts the runs again for as long as it lasts
+				for _, n := range e.taskCallCount {
+					atomic.StoreInt32(n, 0)
+				}
 
 				for _, c := range calls {
 					c := c
